@@ -122,17 +122,27 @@ RELS = ('predecessors', 'successors', 'parent', 'all_parents', 'children', 'all_
 PASS_THROUGH = ('list', 'tuple', 'set', 'sorted', 'reversed', 'frozenset', 'iter', '_to_list', '_ImmutableTaskList',
                 '_unique_tasks')
 
-Paths = Dict[tuple, List[str]]      # relation path (ops applied to the task parameter) -> conditions it depends on
+Paths = Dict[tuple, List[frozenset]]   # relation path (ops applied to the task parameter) -> DNF of the conditions
+UNCOND = [frozenset()]
+
+
+def _simplify(alts: List[frozenset]) -> List[frozenset]:
+    alts = list(dict.fromkeys(alts))
+    if any(not a for a in alts):
+        return list(UNCOND)
+    singles = {next(iter(a)) for a in alts if len(a) == 1}
+    for c in singles:
+        neg = c[4:] if c.startswith('not ') else 'not ' + c
+        if neg in singles:
+            return list(UNCOND)
+    return alts
 
 
 def _union(*ps: Paths) -> Paths:
     out: Paths = {}
     for p in ps:
         for k, c in p.items():
-            if k in out:
-                out[k] = [] if (not out[k] or not c) else out[k] + [x for x in c if x not in out[k]]
-            else:
-                out[k] = list(c)
+            out[k] = _simplify(out.get(k, []) + list(c))
     return out
 
 
@@ -141,7 +151,26 @@ def _ext(p: Paths, op: str) -> Paths:
 
 
 def _cond(p: Paths, text: str) -> Paths:
-    return {k: c + [text] for k, c in p.items()}
+    return {k: [a | {text} for a in c] for k, c in p.items()}
+
+
+def _discharge(p: Paths, text: str, prefixes) -> Paths:
+    """drop condition `text` from the paths that run through one of `prefixes` (a `x is not None` test of the very
+    object the elements are drawn from only says that there is something to draw)"""
+    out: Paths = {}
+    for k, c in p.items():
+        if any(k[:len(pre)] == pre for pre in prefixes):
+            c = _simplify([a - {text} for a in c])
+        out[k] = c
+    return out
+
+
+def unconditional(c: List[frozenset]) -> bool:
+    return any(not a for a in c)
+
+
+def cond_text(c: List[frozenset]) -> str:
+    return ' | '.join(' and '.join(sorted(a)) for a in c)
 
 
 def normalise(p: Paths) -> Paths:
@@ -153,26 +182,22 @@ def normalise(p: Paths) -> Paths:
         ops = list(k)
         dead = False
         changed = True
-        while changed:
+        while changed and not dead:
             changed = False
             for i in range(len(ops) - 1):
-                a, b = ops[i], ops[i + 1]
-                if a == 'nonleaf?' and b in CHILD_ATTRS:
+                x, y = ops[i], ops[i + 1]
+                if x == 'nonleaf?' and y in CHILD_ATTRS:
                     del ops[i]
                     changed = True
                     break
-                if a == 'leaf?' and b in CHILD_ATTRS:
+                if (x in ('leaf?', 'leaves') and y in CHILD_ATTRS) or (x in ('leaf?', 'leaves') and y == 'nonleaf?') \
+                        or (x == 'nonleaf?' and y == 'leaf?') or (x == 'leaf?' and y == 'nonleaf?'):
                     dead = True
                     break
-                if a in ('leaves', 'leaf?') and b in ('leaves', 'leaf?'):
-                    ops[i:i + 2] = ['leaves' if 'leaves' in (a, b) and a != 'leaf?' else ('leaf?' if a == 'leaf?' else 'leaves')]
+                if x in ('leaves', 'leaf?') and y in ('leaves', 'leaf?'):
+                    ops[i:i + 2] = [x]          # leaves of a leaf is the leaf; a leaf filter after leaves is void
                     changed = True
                     break
-                if a == 'leaves' and b == 'nonleaf?':
-                    dead = True
-                    break
-            if dead:
-                break
         if not dead:
             cur = _union(cur, {tuple(ops): c})
     changed = True
@@ -182,10 +207,13 @@ def normalise(p: Paths) -> Paths:
             if 'leaf?' in k:
                 i = k.index('leaf?')
                 pre, post = k[:i], k[i + 1:]
-                for alt in (pre + ('all_children', 'leaf?') + post, pre + ('children', 'leaves') + post):
+                for alt in (pre + ('all_children', 'leaf?') + post, pre + ('children', 'leaves') + post,
+                            pre + ('all_children', 'leaves') + post):
                     if alt in cur:
-                        c = cur.pop(k) + cur.pop(alt)
-                        cur = _union(cur, {pre + ('leaves',) + post: [] if not c else c})
+                        c1, c2 = cur.pop(k), cur.pop(alt)
+                        both = list(UNCOND) if unconditional(c1) and unconditional(c2) else \
+                            [x | y for x in c1 for y in c2]
+                        cur = _union(cur, {pre + ('leaves',) + post: both})
                         changed = True
                         break
                 if changed:
@@ -193,8 +221,9 @@ def normalise(p: Paths) -> Paths:
             if k[:1] == ('parent',) and k[1:2] != ('all_parents',):
                 alt = ('parent', 'all_parents') + k[1:]
                 if alt in cur:
-                    c = cur.pop(k) + cur.pop(alt)
-                    cur = _union(cur, {('all_parents',) + k[1:]: c})
+                    c1, c2 = cur.pop(k), cur.pop(alt)
+                    both = list(UNCOND) if unconditional(c1) and unconditional(c2) else [x | y for x in c1 for y in c2]
+                    cur = _union(cur, {('all_parents',) + k[1:]: both})
                     changed = True
                     break
     return cur
@@ -233,7 +262,7 @@ class RelEval:
             if e.id in env:
                 return env[e.id]
             if e.id == self.task_param:
-                return {(): []}
+                return {(): list(UNCOND)}
             return self.var(e.id, at, e)
         if isinstance(e, ast.Attribute) and (e.attr in RELS or e.attr == 'id'):
             return _ext(self.ev(e.value, env, at), e.attr)
@@ -246,21 +275,21 @@ class RelEval:
             return _union(self.ev(e.left, env, at), self.ev(e.right, env, at))
         if isinstance(e, (ast.ListComp, ast.GeneratorExp, ast.SetComp)):
             env2 = dict(env)
+            pend = []
             for g in e.generators:
                 if not isinstance(g.target, ast.Name):
                     raise Unknown(e, "comprehension with a tuple target")
                 it = self.ev(g.iter, env2, at)
                 env2[g.target.id] = it
                 for c in g.ifs:
-                    self._apply_cond(c, True, env2, e)
-            return self.ev(e.elt, env2, at)
+                    pend += self._apply_cond(c, True, env2)
+            return self._finish(self.ev(e.elt, env2, at), pend, env2, at)
         if isinstance(e, ast.IfExp):
             ea, eb = dict(env), dict(env)
-            self._seed_param(ea)
-            self._seed_param(eb)
-            self._apply_cond(e.test, True, ea, e)
-            self._apply_cond(e.test, False, eb, e)
-            return _union(self.ev(e.body, ea, at), self.ev(e.orelse, eb, at))
+            pa = self._apply_cond(e.test, True, ea)
+            pb = self._apply_cond(e.test, False, eb)
+            return _union(self._finish(self.ev(e.body, ea, at), pa, ea, at),
+                          self._finish(self.ev(e.orelse, eb, at), pb, eb, at))
         if isinstance(e, ast.Call):
             fn = e.func
             name = fn.id if isinstance(fn, ast.Name) else (unmangle(fn.attr) if isinstance(fn, ast.Attribute) else None)
@@ -273,28 +302,35 @@ class RelEval:
                 return _ext(self.ev(e.args[0], env, at), 'leaves')
         raise Unknown(e, f"collection expression `{src(e)[:80]}` is not a relation / list idiom the rule understands")
 
-    def _seed_param(self, env):
-        env.setdefault(self.task_param, {(): []})
-
-    def _apply_cond(self, test: ast.AST, pol: bool, env: Dict[str, Paths], where):
-        """narrow env by a condition: leaf tests of an env variable become filters, None tests are benign, anything
-        else marks every variable mentioned (or, failing that, everything) as conditional"""
+    def _apply_cond(self, test: ast.AST, pol: bool, env: Dict[str, Paths]) -> list:
+        """narrow env by a condition: leaf tests of a bound variable / the task parameter become filters; every other
+        atom is returned as a pending condition (text, tested expr of an `is not None` test or None)"""
+        pend = []
         for a, p in facts.split_conj(test, pol):
             lt = leaf_test(a, p)
-            if lt and isinstance(lt[0], ast.Name) and lt[0].id in env:
-                env[lt[0].id] = _ext(env[lt[0].id], 'leaf?' if lt[1] else 'nonleaf?')
+            if lt and isinstance(lt[0], ast.Name) and (lt[0].id in env or lt[0].id == self.task_param):
+                cur = env.get(lt[0].id) or {(): list(UNCOND)}
+                env[lt[0].id] = _ext(cur, 'leaf?' if lt[1] else 'nonleaf?')
                 continue
-            if lt and isinstance(lt[0], ast.Name) and lt[0].id == self.task_param:
-                env[self.task_param] = _ext({(): []}, 'leaf?' if lt[1] else 'nonleaf?')
+            nt = none_test(a, p)
+            if nt:
+                base = f"{src(nt[0])} is None"
+                pend.append((base if nt[1] else 'not ' + base, None if nt[1] else nt[0]))
                 continue
-            if none_test(a, p):
-                continue
-            txt = ('' if p else 'not ') + src(a)[:60]
-            names = {n.id for n in ast.walk(a) if isinstance(n, ast.Name)} & set(env)
-            for n in (names or set(env)):
-                env[n] = _cond(env[n], txt)
-            if not names:
-                env['<cond>'] = {('?',): [txt]}
+            pend.append((src(a)[:70] if p else 'not ' + src(a)[:70], None))
+        return pend
+
+    def _finish(self, res: Paths, pend: list, env, at) -> Paths:
+        for text, x in pend:
+            res = _cond(res, text)
+            if x is not None:
+                try:
+                    pre = list(self.ev(x, env, at))
+                except Unknown:
+                    pre = []
+                if pre:
+                    res = _discharge(res, text, pre)
+        return res
 
     # ---- local collection variables
     def var(self, name: str, at, node) -> Paths:
@@ -359,17 +395,12 @@ class RelEval:
                 raise Unknown(fo, "for loop with a tuple target")
             env[fo.target.id] = self.ev(fo.iter, env, self.cfg.node_of(fo))
         base = {(id(t), p) for t, p in self.cfg.conditions(ref)} if ref is not None else set()
+        pend = []
         for t, p in self.cfg.conditions(cn):
             if (id(t), p) in base:
                 continue
-            if ref is None:
-                self._seed_param(env)
-            self._apply_cond(t, p, env, t)
-        res = self.ev(expr, env, cn)
-        extra = env.get('<cond>')
-        if extra:
-            res = {k: c + extra[('?',)] for k, c in res.items()}
-        return res
+            pend += self._apply_cond(t, p, env)
+        return self._finish(self.ev(expr, env, cn), pend, env, cn)
 
 
 # ---------------------------------------------------------------------------------------------------------------------
